@@ -12,6 +12,7 @@ from sa.astutil import (anorm, call_name, calls_in, dotted, norm, walk_no_nested
 from sa.loader import AnalysisError
 from sa.tables import Cfg, module_constants
 from checks.c02 import make_world
+from checks import common
 
 DIST_PRIMS = ('squared_distance', 'distance', 'get_smallest_distance', 'angle_distance_factors')
 HORIZON = 20.0
@@ -72,6 +73,18 @@ def run(ctx):
     prog = ctx.prog
     cfg = Cfg(prog)
     cg, reach, world = make_world(prog)
+
+    # ------------------------------------------------------------------ R4
+    # separations up to the limits of the coordinate field: full-width values
+    # (>= 1000.000 or <= -100.000) touch the neighbouring field
+    common.check_fixed_columns(ctx, 'C05.R4', prog, ['x', 'y', 'z'])
+
+    # ------------------------------------------------------------------ R5
+    # a combined file is read by one sequential scan: the chain-terminus state
+    # left behind by the first part must not be consumed by anything but the
+    # first ATOM residue of the next chain
+    from checks.recordloop import RecordLoop, check_terminus_latch
+    check_terminus_latch(ctx, 'C05.R5', RecordLoop(prog))
 
     # ------------------------------------------------------------------ R1
     n_loops = 0
